@@ -56,7 +56,41 @@ var invalidNames = []string{
 	"\u00c5", "a\u0301", "\u03b1", "alice\u200b", "\u00e4lice", "\u24d0", "a\u00adb", "\u2160",
 }
 
+// the model of filepath.Clean / filepath.Join (lean/Whawty/Model/Path.lean) against the library
+func pathModelCases(c *ctx) {
+	r := c.r
+	n := 4000
+	if c.thorough() {
+		n = 60000
+	}
+	n /= c.nshards
+	comps := []string{"", ".", "..", "a", "b.c", "...", "..a", "a..", "/", "//", "store", ".tmp", "x y", "a\\b", "\x01", ".user"}
+	gen := func() string {
+		var b strings.Builder
+		if r.Intn(3) == 0 {
+			b.WriteString("/")
+		}
+		k := r.Intn(6)
+		for i := 0; i < k; i++ {
+			if i > 0 {
+				b.WriteString("/")
+			}
+			b.WriteString(comps[r.Intn(len(comps))])
+		}
+		if r.Intn(5) == 0 {
+			b.WriteString("/")
+		}
+		return b.String()
+	}
+	for i := 0; i < n; i++ {
+		a, b := gen(), gen()
+		c.emit("path.clean "+xs(a), xs(filepath.Clean(a)))
+		c.emit(fmt.Sprintf("path.join %s %s", xs(a), xs(b)), xs(filepath.Join(a, b)))
+	}
+}
+
 func suiteC03(c *ctx) {
+	pathModelCases(c)
 	rounds := 2
 	if c.thorough() {
 		rounds = 20
